@@ -67,6 +67,19 @@ pub fn run(ctx: &Ctx) -> (Report, String) {
         if ctx.is_main() {
             rep.require("ladder_p_pictures_compared", 3 * n as u64);
         }
+        let pr = par_shards(64, ctx.threads, |s| {
+            let mut r = Report::new();
+            let mut k = s;
+            while k < PAIRS_N {
+                crate::mon::guarded(&mut r, || J::obj().set("property", "C03").set("kind", "pairs").set("k", k), |r| pairs_case(ctx, k, r));
+                k += 64;
+            }
+            r
+        });
+        rep.merge(Report::merge_all(pr));
+        if ctx.is_main() {
+            rep.require("equal_magnitude_pair_pictures", PAIRS_N as u64);
+        }
     }
     if ctx.is_main() {
         let m = ctx.scale_pct;
@@ -190,6 +203,59 @@ pub fn ladder_case(ctx: &Ctx, k: usize, rep: &mut Report) {
         }
     }
 }
+
+/// Directed residuals: every pair of scan positions (0..64) carrying levels of equal magnitude, all
+/// sign combinations, in inter blocks over a flat reference - six blocks per 16x16 predicted picture.
+pub fn pairs_case(ctx: &Ctx, k: usize, rep: &mut Report) {
+    let mut rng = Rng::new(ctx.seed ^ 0xC03BA, k as u64);
+    let flavour = if k % 3 == 2 { Flavour::StdPlus } else { Flavour::Sor((k % 2) as u8) };
+    let mut cfg = gen_cfg(&mut rng, flavour, 16, 16);
+    cfg.pei = 0;
+    cfg.stuffing_pct = 0;
+    let flat = {
+        let hdr = make_header(&cfg, 0, &mut rng);
+        let dc = *rng.pick(&[60u8, 127, 200]);
+        SymPicture { hdr, w: 16, h: 16, mbs: vec![SymMb::Coded { kind: crate::model::tables::MbKind::Intra, dquant: 1, mvd: [[0; 2]; 4], blocks: std::array::from_fn(|_| SymBlock { intradc: Some(dc), events: vec![] }) }], stuffing: vec![] }
+    };
+    let mut dec = Dec::new(flavour.sorenson(), false);
+    rep.evaluations += 1;
+    if dec.decode(&flat.encode()) != Outcome::Ok {
+        rep.count("skipped:pairs-reference");
+        return;
+    }
+    let refp = dec.planes().unwrap();
+    cfg.tr = cfg.tr.wrapping_add(1);
+    let hdr = make_header(&cfg, 1, &mut rng);
+    let mag = 1 + rng.below(9) as i32;
+    let blocks: [SymBlock; 6] = std::array::from_fn(|b| {
+        let idx = k * 6 + b;
+        let (pair, signs) = (idx / 4, idx % 4);
+        let (mut p1, mut rem) = (0usize, pair);
+        while p1 < 63 && rem >= 63 - p1 {
+            rem -= 63 - p1;
+            p1 += 1;
+        }
+        if p1 >= 63 {
+            return SymBlock::default();
+        }
+        let p2 = p1 + 1 + rem;
+        let (l1, l2) = (if signs & 1 == 0 { mag } else { -mag }, if signs & 2 == 0 { mag } else { -mag });
+        let esc = if flavour == Flavour::Sor(1) { Esc::Esc7 } else { Esc::Esc8 };
+        SymBlock { intradc: None, events: vec![Ev { run: p1 as u8, level: l1, esc }, Ev { run: (p2 - p1 - 1) as u8, level: l2, esc }] }
+    });
+    let pic = SymPicture { hdr, w: 16, h: 16, mbs: vec![SymMb::Coded { kind: crate::model::tables::MbKind::Inter, dquant: 1, mvd: [[0; 2]; 4], blocks }], stuffing: vec![] };
+    let bytes = pic.encode();
+    match check_inter(&mut dec, &refp, &pic, &bytes) {
+        Ok(_) => {
+            rep.count("equal_magnitude_pair_pictures");
+            rep.distinct.insert(fnv64(&bytes));
+        }
+        Err(f) if f.sig == "generator-invalid" => rep.inconclusive.push(f.detail),
+        Err(f) => rep.violation(format!("pairs/{}", f.sig), format!("{} q={} |level|={} pairs picture {}: {}", flavour.name(), cfg.quant, mag, k, f.detail), J::obj().set("property", "C03").set("kind", "pairs").set("tier", ctx.tier_name()).set("seed", ctx.seed).set("stage", ctx.stage.clone()).set("k", k)),
+    }
+}
+
+pub const PAIRS_N: usize = (2016 * 4 + 5) / 6;
 
 pub fn case(ctx: &Ctx, shard: usize, index: u64, rep: &mut Report) {
     let mut cov = Cov::default();
